@@ -176,7 +176,8 @@ def build_model(cfg, faults=(), allow_first=False, keep_log=True):
         m.setNucleationSite(pp.get('site', 'bulk'), phase=p)
         shp = pp.get('shape', 'sphere')
         if shp != 'sphere':
-            m.setPrecipitateShape(shp, phase=p, ratio=pp.get('ar', 1.0))
+            ar_ = pp.get('ar', 1.0)
+            m.setPrecipitateShape(shp, phase=p, ratio=(lambda R: 1.5 * (np.asarray(R, dtype=float) / 1e-9) ** 1.1) if ar_ == 'fn' else ar_)
         if not pp.get('infDiff', True):
             m.setInfinitePrecipitateDiffusivity(False, phase=p)
         if pp.get('parents'):
@@ -329,7 +330,9 @@ def gen_stub_config(rng, nphase=None, nel=None, temperature='const', allow_gb=Tr
         shape, ar = 'sphere', 1.0
         if allow_shapes and site in ('bulk', 'dislocations') and rng.random() < 0.25:
             shape = rng.choice(['needle', 'plate', 'cubic'])
-            ar = rng.choice([1.5, 2.0, 4.0])
+            # aspect ratio: constants incl. the default 1 (a non-spherical shape at ratio exactly 1), or a function of the radius that falls
+            # below 1 for the smallest classes (kawin clamps it to exactly 1 there)
+            ar = rng.choice([1.5, 2.0, 4.0, 1.0, 'fn'])
         pp[p] = {'thermo': gen_stub_phase(rng, nel, i, x0), 'gamma': rng.choice([0.1, 0.12, 0.15, 0.2, 0.25]),
                  'VmB': gen_volume(rng, VmA * rng.choice([1.0, 1.0, 0.5, 0.7, 1.5, 2.0])), 'site': site, 'shape': shape, 'ar': ar,
                  'infDiff': rng.random() < 0.8}
